@@ -487,6 +487,7 @@ static void fcopy_text(const flds_t *F, char *buf, size_t n) { size_t o = 0; buf
 static void emit_outcome(const flds_t *F) {
 	static char t[1 << 17]; fcopy_text(F, t, sizeof t); hx_hash_t h; hx_hash_init(&h); hx_hash_str(&h, t); hx_hash_str(&h, CX.g ? CX.g->name : "snap"); hx_hash_str(&h, CX.a ? CX.a->label : "");
 	res_printf("O %llx %llx\n", (unsigned long long) h.a, (unsigned long long) (h.b + (unsigned) CX.state * 7u + (unsigned) CX.phase));
+	if (getenv("VERIF_IN_REPLAY")) for (int i = 0; i < F->n; i++) res_printf("X %s=%s\n", F->f[i].name, F->f[i].val);
 }
 static void phase_deep(const getter_t *g, const arg_t *a) {
 	res_t r; memset(&r, 0, sizeof r);
